@@ -39,7 +39,12 @@ def render(t):
     if k == 'isect':
         return '(%s %s)' % (render(t[1]), render(t[2]))
     if k == 'union':
-        return '(%s)' % ', '.join(render(a) for a in t[1])
+        # the union operator is binary; a list a, b, c is rendered as nested pairs (a, (b, c)) — same areas, same order
+        areas = [render(a) for a in t[1]]
+        out = areas[-1]
+        for a in reversed(areas[:-1]):
+            out = '(%s, %s)' % (a, out)
+        return out
     raise ValueError(t)
 
 
